@@ -675,6 +675,9 @@ def make_c09_judge(check_genbank=True):
             ctx.count("c09_inner_provenance_checked")
         if not check_genbank:
             return
+        if not want_id:
+            ctx.count("c09_not_genbank_legal_id")
+            return
         try:
             buf = io.StringIO()
             SeqIO.write(p, buf, "genbank")
